@@ -26,9 +26,10 @@ def _alarm(_s, _f):
 _HANGS = [0]
 
 
-def with_alarm(f, secs=2):
-    # after a dozen hangs the verdict is clear: give the remaining calls a tenth of the time so the run still ends soon
-    if _HANGS[0] > 12:
+def with_alarm(f, secs=10):
+    # generous limit (a loaded machine must not turn a slow call into an alarm); after a few hangs the verdict is clear:
+    # give the remaining calls a fraction of the time so the run still ends soon
+    if _HANGS[0] > 5:
         secs = 0.2
     old = signal.signal(signal.SIGALRM, _alarm)
     signal.setitimer(signal.ITIMER_REAL, secs)
